@@ -68,6 +68,8 @@ P = {
         "rss_mb": 2500,
         "single_timeout": 240,
         "min_budget": 48,
+        "race": True,
+        "race_runs": {"quick": 640, "thorough": 40000},
     },
     "C09": {
         "runs": {"quick": 2000, "thorough": 200000},
